@@ -482,6 +482,23 @@ def c17_extra_cases():
         ]
         for base in (64, 100):
             out.append(bitfield_case("ax_%s_%d" % (acc or "none", base), "c17", base, [dict(f) for f in fields], helpers=[ex, en, inner], default=default_spec(0), name="Reg"))
+        # the code-generation special cases: a field as wide as the storage, top-bit fields, one-bit bases
+        for b in (8, 16, 32, 64, 128):
+            out.append(bitfield_case("af_%s_u%d" % (acc or "none", b), "c17", b, [uint_field("all", [(0, b - 1)], access=acc)], name="Reg"))
+            out.append(bitfield_case("as_%s_i%d" % (acc or "none", b), "c17", b, [sint_field("all", [(0, b - 1)], access=acc)], name="Reg"))
+            out.append(bitfield_case("at_%s_u%d" % (acc or "none", b), "c17", b, [bool_field("top", b - 1, access=acc), uint_field("rest", [(0, b - 2)], access=acc)], name="Reg"))
+        for b in (1, 7, 24, 65, 127):
+            f = uint_field("all", [(0, b - 1)], access=acc) if b > 1 else bool_field("all", 0, access=acc)
+            out.append(bitfield_case("af_%s_u%d" % (acc or "none", b), "c17", b, [f], name="Reg"))
+        if acc in ("w", ""):
+            # `debug` with a field that has no getter: does not compile on a correct tree (then the probes are skipped);
+            # if it ever compiles, the unreadable field must still not have a getter
+            out.append(bitfield_case("ad_%s" % (acc or "none"), "c17", 32, [uint_field("a", [(0, 7)]), uint_field("key", [(8, 15)], access=acc), bool_field("flag", 16, access=acc),
+                                                                             enum_field("mode", [(17, 18)], ex, access=acc)], helpers=[ex], debug=True, name="Reg", tags=["debug-with-unreadable-field"]))
+        full_e = std_enum("Ex", 8, True)
+        out.append(bitfield_case("ae_%s" % (acc or "none"), "c17", 8, [enum_field("all", [(0, 7)], full_e, access=acc)], helpers=[full_e], name="Reg"))
+        inner16 = nested_def("In", 16)
+        out.append(bitfield_case("an_%s" % (acc or "none"), "c17", 16, [nested_field("all", [(0, 15)], inner16, access=acc)], helpers=[inner16], name="Reg"))
     return out
 
 
